@@ -1,0 +1,19 @@
+//go:build verif
+
+package fsm
+
+// Contracts for the FSM interpreter, checked by /verif/bin/govc (comment-only file; compiles to nothing).
+
+// fillContainers (C06, C13, C15, C19): pushes the collected strings into the user's variables.
+//   A-cb (assumed, as a precondition): the storage of a value is not one of the SetByUser flags.
+//@ func fillContainers
+//@   requires keys: forall k *container.Container :: k in containers ==> k != nil && k.Value != nil && ival(k.Value) != 0
+//@   requires a-cb-disjoint: forall k *container.Container, j *container.Container :: k.ValueSetByUser == nil || k.ValueSetByUser != ival(j.Value)
+//@   ensures set-by-user: result == nil ==> forall k *container.Container :: k in containers && k.ValueSetByUser != nil ==> deref(k.ValueSetByUser)
+//@   ensures env-flag-reset: result == nil ==> forall k *container.Container :: k in containers ==> !k.ValueSetFromEnv
+//@   ensures env-flag-frame: forall k *container.Container :: !(k in containers) ==> k.ValueSetFromEnv == old(k.ValueSetFromEnv)
+//@   loop 1 invariant done: forall k *container.Container :: iterdone(k) ==> !k.ValueSetFromEnv && (k.ValueSetByUser != nil ==> deref(k.ValueSetByUser))
+//@   loop 1 invariant sub: forall k *container.Container :: iterdone(k) ==> (k in containers)
+//@   loop 1 invariant frame: forall k *container.Container :: !(k in containers) ==> k.ValueSetFromEnv == old(k.ValueSetFromEnv)
+//@   loop 2 invariant done: forall k *container.Container :: iterdone(k) && k != con ==> !k.ValueSetFromEnv && (k.ValueSetByUser != nil ==> deref(k.ValueSetByUser))
+//@   loop 2 invariant frame: forall k *container.Container :: !(k in containers) ==> k.ValueSetFromEnv == old(k.ValueSetFromEnv)
